@@ -58,6 +58,7 @@ func NetConn(ctx context.Context, c *Conn, msgType MessageType) net.Conn {
 
 	nc.writeCtx, nc.writeCancel = context.WithCancel(ctx)
 	nc.readCtx, nc.readCancel = context.WithCancel(ctx)
+	nc.releaseOnClose()
 
 	nc.writeTimer = time.AfterFunc(math.MaxInt64, func() {
 		nc.writeDeadlineMu.Lock()
